@@ -1031,6 +1031,29 @@ func (env *SpecEnv) evalCall(e *ast.CallExpr) (TV, error) {
 			bs = withPatterns(bs, qn)
 		}
 		return TV{T{fmt.Sprintf("(%s ((%s %s)) %s)", q, qn, exm.t.sort, bs), SBool}, boolT}, nil
+	case "arrayof":
+		// arrayof(x, example, body): the array mapping every x (of the example's sort) to body, for recursive spec
+		// functions that walk a heap structure; introduced as a fresh array constant with its defining axiom
+		v, ok := e.Args[0].(*ast.Ident)
+		if !ok || len(e.Args) != 3 {
+			return TV{}, fmt.Errorf("arrayof(x, example, body)")
+		}
+		exm, err := env.eval(e.Args[1])
+		if err != nil {
+			return TV{}, err
+		}
+		c := env.child()
+		ex.nq++
+		qn := fmt.Sprintf("%s!q%d", sanitize(v.Name), ex.nq)
+		c.vars[v.Name] = TV{T{qn, exm.t.sort}, exm.typ}
+		body, err := c.eval(e.Args[2])
+		if err != nil {
+			return TV{}, err
+		}
+		as := ArraySort(exm.t.sort, body.t.sort)
+		arr := ex.vc.fresh("arrayof", as)
+		ex.vc.axiom(fmt.Sprintf("(forall ((%s %s)) (! (= (select %s %s) %s) :pattern ((select %s %s))))", qn, exm.t.sort, arr.s, qn, body.t.s, arr.s, qn))
+		return TV{arr, nil}, nil
 	case "dom":
 		m, err := env.eval(e.Args[0])
 		if err != nil {
